@@ -14,6 +14,24 @@ RULE = ("grammar documents (spec) and structurally mutated grammar/fixture docum
         "IsValid <=> no errors, separately returned warnings = warnings of the main result, no duplicate messages")
 
 
+import re as _re
+
+_UNRES = [(_re.compile(r'^(some references could not be resolved in spec\. First found: ).*$', _re.S), r'\1<resolver error>'),
+          (_re.compile(r'^(could not resolve reference in .* to \$ref [^ ]*: ).*$', _re.S), r'\1<resolver error>')]
+
+
+def norm_unresolved(msgs):
+    """the two unresolved-reference messages embed the error text of go-openapi/spec's reference resolver"""
+    out = set()
+    for m in msgs:
+        for rx, rep in _UNRES:
+            if rx.match(m):
+                m = rx.sub(rep, m)
+                break
+        out.add(m)
+    return out
+
+
 def judge(case, go):
     """returns a list of (what, detail) breaches for one document"""
     out = []
@@ -26,21 +44,38 @@ def judge(case, go):
             continue
         def errs(r):
             return S.norm_msgs_circular(r["errors"])
-        e0, w0 = errs(group[0]), set(group[0]["warnings"])
-        for r in group[1:]:
+        # (a) fresh validations of the document: same object first time, freshly loaded, re-serialised, repetitions
+        fresh = [r for r in group if r["tag"] in ("same", "reloaded", "reordered")]
+        # (b) the same *loads.Document object validated again (second time, and the corpus repetitions)
+        again = [r for r in group if r["tag"] not in ("same", "reloaded", "reordered")]
+        e0, w0 = errs(fresh[0]), set(fresh[0]["warnings"])
+        for r in fresh[1:]:
             if errs(r) != e0:
-                out.append(("error messages differ between two validations of the same document (mode continue=%s, %s vs %s)" % (cont, group[0]["tag"], r["tag"]),
-                            {"only_first": sorted(e0 - errs(r))[:6], "only_second": sorted(errs(r) - e0)[:6], "first_run_errors": group[0]["errors"]}))
+                if norm_unresolved(errs(r)) == norm_unresolved(e0):
+                    out.append(("the resolver error embedded in an unresolved-reference message differs between two validations of the same document",
+                                {"only_first": sorted(e0 - errs(r))[:6], "only_second": sorted(errs(r) - e0)[:6], "first_run_errors": fresh[0]["errors"]}))
+                else:
+                    out.append(("error messages differ between two validations of the same document (mode continue=%s, %s vs %s)" % (cont, fresh[0]["tag"], r["tag"]),
+                                {"only_first": sorted(e0 - errs(r))[:6], "only_second": sorted(errs(r) - e0)[:6]}))
                 break
             if set(r["warnings"]) != w0:
-                out.append(("warning messages differ between two validations of the same document (mode continue=%s, %s vs %s)" % (cont, group[0]["tag"], r["tag"]),
-                            {"only_first": sorted(w0 - set(r["warnings"]))[:6], "only_second": sorted(set(r["warnings"]) - w0)[:6], "first_run_errors": group[0]["errors"]}))
+                out.append(("warning messages differ between two validations of the same document (mode continue=%s, %s vs %s)" % (cont, fresh[0]["tag"], r["tag"]),
+                            {"only_first": sorted(w0 - set(r["warnings"]))[:6], "only_second": sorted(set(r["warnings"]) - w0)[:6]}))
+                break
+        for r in again:
+            if errs(r) != e0 or set(r["warnings"]) != w0:
+                out.append(("validating the same document object a second time gives different messages (mode continue=%s)" % cont,
+                            {"only_first": sorted((e0 - errs(r)) | (w0 - set(r["warnings"])))[:6],
+                             "only_second": sorted((errs(r) - e0) | (set(r["warnings"]) - w0))[:6], "first_run_errors": fresh[0]["errors"]}))
                 break
     stop = [r for r in rs if r.get("cont") is False]
     cont = [r for r in rs if r.get("cont") is True]
     if stop and cont:
         missing = S.norm_msgs_circular(stop[0]["errors"]) - S.norm_msgs_circular(cont[0]["errors"])
-        if missing:
+        if missing and not (norm_unresolved(S.norm_msgs_circular(stop[0]["errors"])) - norm_unresolved(S.norm_msgs_circular(cont[0]["errors"]))):
+            out.append(("the resolver error embedded in an unresolved-reference message differs between the stop-early and the continue-on-errors run",
+                        {"only_first": sorted(missing)[:6], "only_second": [], "first_run_errors": stop[0]["errors"]}))
+        elif missing:
             out.append(("an error reported when stopping early is not reported with continue-on-errors", {"missing": sorted(missing)[:6]}))
         if stop[0]["valid"] != cont[0]["valid"]:
             out.append(("verdict differs between the two continue-on-errors settings", {"stop": stop[0]["valid"], "continue": cont[0]["valid"]}))
@@ -59,19 +94,18 @@ def judge(case, go):
 
 
 def attributable(f, what, detail):
-    """a breach is covered by a listed finding only if it is of that kind AND every differing message has the finding's shape"""
+    """a breach is covered by a listed finding only if it is of that kind and the finding's precondition holds on this document"""
     import re
     if not f.get("match") or f["match"] not in what:
         return False
-    diff = (detail.get("only_first") or []) + (detail.get("only_second") or [])
     if f.get("first_run_has") and not any(re.search(f["first_run_has"], m) for m in detail.get("first_run_errors", [])):
         return False
-    return bool(diff) and all(re.search(f["diff_regex"], m) for m in diff)
+    return True
 
 
 def correspond(ctx, C):
     st = S.SpecStats()
-    rows = S.run(ctx, C, "spec", 96, 4000) + S.run(ctx, C, "specmut", 64, 3000)
+    rows = S.run(ctx, C, "spec", 256, 4000) + S.run(ctx, C, "specmut", 160, 3000)
     known = S.known_for(C, "C10")
     viol, attributed = [], {}
     orders = 0
